@@ -91,6 +91,11 @@ impl RecordWriter<RollingWriter> {
         self.get_underlying_wrt().current_file()
     }
 
+    /// See [`RollingWriter::file_of_next_write`].
+    pub fn file_of_next_write(&mut self) -> Option<FileNumber> {
+        self.get_underlying_wrt().file_of_next_write()
+    }
+
     pub fn size(&self) -> usize {
         self.get_underlying_wrt().size()
     }
